@@ -11,6 +11,9 @@ use vh_lite::{read_cases, drive, drive_group, quiet_panics, Out};
 mod trrel_order__ser;
 mod trrel_bin__ser;
 mod trrel_tern__ser;
+mod trrel_only010__ser;
+mod trrel_only001__ser;
+mod trrel_only011__ser;
 mod trrel_plain__ser;
 
 fn lookup(name: &str) -> fn() -> Box<dyn Driven> {
@@ -18,6 +21,9 @@ fn lookup(name: &str) -> fn() -> Box<dyn Driven> {
       "trrel_order__ser" => trrel_order__ser::make,
       "trrel_bin__ser" => trrel_bin__ser::make,
       "trrel_tern__ser" => trrel_tern__ser::make,
+      "trrel_only010__ser" => trrel_only010__ser::make,
+      "trrel_only001__ser" => trrel_only001__ser::make,
+      "trrel_only011__ser" => trrel_only011__ser::make,
       "trrel_plain__ser" => trrel_plain__ser::make,
       _ => panic!("no such program variant in this shard: {}", name),
    }
